@@ -279,6 +279,16 @@ func pureFn(name string) *intrinsicDef {
 }
 
 var simpleIntrinsics = map[string]*intrinsicDef{
+	"go.uber.org/multierr.Append": {name: "multierr.Append(a, b) is nil exactly when both a and b are nil; no effect on tracked state", heaps: noHeaps, allocs: true,
+		apply: func(g *VCGen, c *ssa.CallCommon, pos token.Pos, v *ssa.Call) []SpecVal {
+			a, b := g.val(c.Args[0]), g.val(c.Args[1])
+			nr := g.freshConst("nextRef@ext", "Int")
+			g.assume(fmt.Sprintf("(>= %s %s)", nr, g.cur.nextRef))
+			g.cur.nextRef = nr
+			sv := freshResult(g, v, 0, c.Signature().Results().At(0).Type())
+			g.assumeHere(fmt.Sprintf("(= (= (if.tag %s) 0) (and (= (if.tag %s) 0) (= (if.tag %s) 0)))", sv.T, a.T, b.T))
+			return []SpecVal{sv}
+		}},
 	"github.com/segmentio/fasthash/fnv1a.HashUint32":   pureFn("fnv1a.HashUint32"),
 	"github.com/segmentio/fasthash/fnv1a.HashString32": pureFn("fnv1a.HashString32"),
 	"github.com/segmentio/fasthash/fnv1a.AddUint32":    pureFn("fnv1a.AddUint32"),
